@@ -44,7 +44,7 @@ let sym_pred (spec : string) : string =
 (* g x. q. fine (x. q.: the path exists before the run) | xL (symlink loop) b d r File::create fails | u /dev/full | p.. f.. reader goes away | lim > 0: regular files fail after N bytes *)
 let cls (lim : bool) (s : string) : z =
   z_of_int (if s = "" then 0 else if s = "xL" then 1 else match s.[0] with
-    | 'b' | 'd' | 'r' -> 1 | 'u' -> 2 | 'p' | 'f' -> 3 | 'g' -> if lim then 4 else 0 | _ -> 0)
+    | 'b' | 'd' | 'r' -> 1 | 'u' -> 2 | 'p' | 'f' -> 3 | 'g' | 'x' | 'q' -> if lim then 4 else 0 | _ -> 0)
 
 let () =
   try
